@@ -63,6 +63,10 @@ fn set_ctx(sh: &Arc<Shared>, tid: usize) {
 struct TaskWaker {
   thread: loom::thread::Thread,
   shared: Option<(Arc<Shared>, usize)>,
+  /// set by every wake (before the unpark), cleared by the executor: the thread's park token alone cannot carry the
+  /// wake-up, because the code under test parks the same thread inside `poll` (HybridMutex wait queue of the bounded
+  /// mpmc / rendezvous cores) and that park loop consumes a token it did not wait for
+  notified: std::sync::atomic::AtomicBool,
 }
 
 impl Wake for TaskWaker {
@@ -74,6 +78,7 @@ impl Wake for TaskWaker {
       sh.stats[*tid].wakes.fetch_add(1, Ordering::Relaxed);
       rt::note("wake", &format!("t{}", tid));
     }
+    self.notified.store(true, Ordering::SeqCst);
     self.thread.unpark();
   }
 }
@@ -83,8 +88,8 @@ impl Wake for TaskWaker {
 pub fn block_on<F: Future>(f: F) -> F::Output {
   let mut f = pin!(f);
   let shared = CTX.with(|c| c.borrow().clone());
-  let tw = Arc::new(TaskWaker { thread: loom::thread::current(), shared: shared.clone() });
-  let waker = Waker::from(tw);
+  let tw = Arc::new(TaskWaker { thread: loom::thread::current(), shared: shared.clone(), notified: std::sync::atomic::AtomicBool::new(false) });
+  let waker = Waker::from(tw.clone());
   let mut cx = Context::from_waker(&waker);
   loop {
     if let Some((sh, tid)) = &shared {
@@ -92,7 +97,19 @@ pub fn block_on<F: Future>(f: F) -> F::Output {
     }
     match f.as_mut().poll(&mut cx) {
       Poll::Ready(x) => return x,
-      Poll::Pending => loom::thread::park(),
+      Poll::Pending => {
+        if tw.notified.swap(false, Ordering::SeqCst) {
+          // woken since this poll started. Normally the wake's token is still there: park consumes it (the same
+          // visible action as ever). If it is gone, a park of the code under test inside `poll` took it: the wake-up
+          // must not be lost with it — poll again.
+          if rt::has_token() {
+            loom::thread::park();
+          }
+        } else {
+          loom::thread::park();
+          tw.notified.store(false, Ordering::SeqCst);
+        }
+      }
     }
   }
 }
